@@ -87,6 +87,19 @@ def generate(rng, tier):
         P = rand_core_prog(r, 8 + r.below(32))
         cases.append(Case(P, [('c01_walk', [['#', P.to_json()]])], 'random-program'))
     cases += grid_cases(tier)
+    # every spelling of every binary / scalar angle operator on the small blade counts (0 included) and the
+    # remainder classes, with divisors of either sign and below 1: a slip in ONE duplicated impl block shows here
+    m = 60 if tier == 'quick' else 1500
+    for j in range(m):
+        r = rng.fork(10**7 + j)
+        P = Prog()
+        a = angle_rem(P, rem_class(r), r.choice([0, 0, 0, 1, 2, 3, 5]))
+        b = angle_rem(P, rem_class(r), r.choice([0, 1, 2, 3, 7]))
+        for k in [r.choice([0.5, 0.25, 0.1, 0.75, 0.3]), -r.choice([0.5, 1.0, 2.0, 3.0, 0.1]), r.choice([2.0, 3.0, 7.0])]:
+            P.add('ADivF', 0, a, P.f(k)); P.add('ADivF', 1, a, P.f(k))
+        for sp in range(4):
+            P.add('AAdd', sp, a, b); P.add('ASub', sp, a, b); P.add('AMul', sp, a, b); P.add('ADivA', sp, a, b)
+        cases.append(Case(P, [('c01_walk', [['#', P.to_json()]])], 'spellings'))
     return cases
 
 LEVEL_TEXT = ('Kernel-checked theorems about the model: Angle addition, subtraction and every blade-step operator map canonical angles to canonical angles (remainder in [0, pi/2 - 1e-10], blade >= 0) for ALL canonical inputs; '
